@@ -1,8 +1,8 @@
 (* C06 — no input text can crash the library.  Property theorems only. *)
 From Coq Require Import List.
-From Exmex.Model Require Import Base Lexer Flat Deep Convert.
+From Exmex.Model Require Import Base Lexer Flat Deep Convert Statements.
 From Exmex.Spec Require Import RefSem.
-From Exmex.Proofs Require Import Totality FlatTotal DeepTotal CompileCorrect ConvertCompose ParseAny Unparse.
+From Exmex.Proofs Require Import Totality FlatTotal DeepTotal CompileCorrect ConvertCompose ParseAny Unparse StatementsTotal.
 
 (* In the model every panic site of the Rust code (index out of bounds, unwrap on None, usize underflow) is an explicit
    `Panic site` outcome.  The theorems say that no text reaches one. *)
@@ -64,6 +64,13 @@ Proof.
   - destruct (parsed_any C tb ts e H) as (_ & Hw & _). exists (render C tb (utoks e)). exact (unparse_is_render C tb _ _ _ e Hw).
 Qed.
 
+(* 6. statement lines (statements.rs, Model/Statements.v): the line is split at `=`, the expression part goes through
+   FlatEx::parse and, when it has no variables, is evaluated on the empty slice; the left-hand side is only classified *)
+Theorem C06_statement_lines_never_panic :
+  forall (D : Type) (C : carrier D) (tb : optable) (is_literal : str -> option nat) (line : str) (site : nat),
+  line_2_statement C tb is_literal line <> Panic site.
+Proof. exact @line_2_statement_no_panic. Qed.
+
 (* `_partial` in the names above and outside these theorems: operator listings and partial of
    SLOPPY parsed expressions (for well-formed trees and for every flat expression the parser accepts the conversions
    are in C03's theorems), the value-typed and statement entry points, and stack depth, which is a runtime fact
@@ -76,3 +83,4 @@ Print Assumptions C06_parsed_flat_expressions_evaluate.
 Print Assumptions C06_deep_parse_never_panics.
 Print Assumptions C06_parsed_deep_expressions_are_consistent.
 Print Assumptions C06_parsed_deep_expressions_evaluate_convert_and_print.
+Print Assumptions C06_statement_lines_never_panic.
